@@ -55,3 +55,39 @@ Theorem C01_find_offsets_spec :
 Proof. exact find_offsets_spec. Qed.
 Print Assumptions C01_find_offsets_spec.
 
+
+(* reading through the written bytes: tableReader.get returns the chunk's bytes
+   iff h is stored (CRC checked, payload decompressed); parametric in the
+   checksum and in any compressor with decompress (compress d) = Some d *)
+Theorem C01_table_get_written :
+  forall (crc : bytes -> N) (compress : bytes -> bytes) (decompress : bytes -> option bytes),
+    (forall d, decompress (compress d) = Some d) ->
+    forall ts rs (content : addr -> bytes) h,
+      valid_tuples ts rs -> distinct_addrs rs ->
+      (forall k, (k < length rs)%nat ->
+         wf_rec crc compress (nth k rs dummy_rec) (content (r_addr (nth k rs dummy_rec)))) ->
+      table_get crc decompress (mkTable (write_table_with ts rs) (build_pindex ts rs)) h
+      = ROk (if in_table rs h then Some (content h) else None).
+Proof. exact table_get_written. Qed.
+Print Assumptions C01_table_get_written.
+
+Theorem C01_table_has_written :
+  forall ts rs h, valid_tuples ts rs ->
+    table_has (mkTable (write_table_with ts rs) (build_pindex ts rs)) h = in_table rs h.
+Proof. exact table_has_written. Qed.
+Print Assumptions C01_table_has_written.
+
+(* tableSet.hasMany over any list of sources (Go iterates a map: any order):
+   a request is found iff it was found before or some source stores it, and
+   `remaining = false` is only returned when every request is found *)
+Theorem C01_tableset_has_many_spec :
+  forall (tbls : list table) (rss : list (list rec)) (reqs : list req),
+    Forall2 src_ok tbls rss -> reqs_sorted reqs ->
+    let '(reqs', remaining) := srcs_has_many tbls reqs in
+    Forall2 (fun r r' => fst r' = fst r /\ (snd r' = true -> snd r = true \/ in_tables rss (fst r) = true)
+                         /\ (snd r = true -> snd r' = true)) reqs reqs'
+    /\ (remaining = false -> forall r', In r' reqs' -> snd r' = true)
+    /\ (remaining = true -> forall r r', In (r, r') (combine reqs reqs') ->
+          snd r' = snd r || in_tables rss (fst r)).
+Proof. exact tableset_has_many_spec. Qed.
+Print Assumptions C01_tableset_has_many_spec.
